@@ -38,7 +38,7 @@ def install_stubs():
         import pymodbus.client.sync  # noqa: F401
     except Exception:
         import pymodbus.client  # noqa: F401
-        m = _stub("pymodbus.client.sync", ModbusTcpClient=object)
+        m = _stub("pymodbus.client.sync", ModbusTcpClient=object, ModbusSerialClient=object)
         sys.modules["pymodbus.client"].sync = m
 
 
